@@ -347,3 +347,119 @@ Definition ex_cfg := {| c_pal := {| p_background := 1%N; p_node := 2%N; p_edge :
 Example ex_guards : NoDup (map ni_idx (tree_infos ex_tree)) /\
                     perm_eqb Z.eqb (map ni_idx (tree_infos ex_tree)) (hv_nodes ex_view) = true.
 Proof. split; [|reflexivity]. cbn. repeat constructor; cbn; intuition discriminate. Qed.
+
+(* ---- seeded round 5: a drawing is determined by the HUGR and the options of that rendering ---- *)
+Lemma palette_eqb_eq a b : palette_eqb a b = true <-> a = b.
+Proof.
+  split.
+  - destruct a, b. unfold palette_eqb. cbn. rewrite !andb_true_iff, !N.eqb_eq. intuition congruence.
+  - intros ->. destruct b. unfold palette_eqb. cbn. now rewrite !N.eqb_refl.
+Qed.
+Lemma config_eqb_eq a b : config_eqb a b = true <-> a = b.
+Proof.
+  split.
+  - destruct a as [pa qa], b as [pb qb]. unfold config_eqb. cbn. rewrite andb_true_iff, palette_eqb_eq.
+    intros [-> E]. apply Bool.eqb_prop in E. now subst.
+  - intros ->. unfold config_eqb. rewrite (proj2 (palette_eqb_eq _ _) eq_refl). now destruct (c_qualify b).
+Qed.
+Lemma determined_b_sound rs : determined_b rs = true -> Determined rs.
+Proof.
+  induction rs as [|[c d] r IH]; cbn [determined_b]; intros E; [constructor|].
+  apply andb_true_iff in E. destruct E as [E1 E2]. constructor; [|apply IH, E2].
+  intros c' d' Hin ->. rewrite forallb_forall in E1. specialize (E1 _ Hin). cbn in E1.
+  rewrite (proj2 (config_eqb_eq c c) eq_refl) in E1. exact E1.
+Qed.
+Lemma determined_b_complete rs : Determined rs -> determined_b rs = true.
+Proof.
+  induction 1 as [|c d r H _ IH]; cbn [determined_b]; [reflexivity|]. rewrite IH, andb_true_r.
+  apply forallb_forall. intros [c' d'] Hin. cbn. destruct (config_eqb c' c) eqn:E; [|reflexivity].
+  apply config_eqb_eq in E. cbn. exact (H c' d' Hin E).
+Qed.
+Lemma nstmt_eqb_refl s : nstmt_eqb s s = true.
+Proof. unfold nstmt_eqb, str_eqb. now rewrite !Z.eqb_refl, !zlist_eqb_refl, !N.eqb_refl. Qed.
+Lemma estmt_eqb_refl e : estmt_eqb e e = true.
+Proof. unfold estmt_eqb. now rewrite !Z.eqb_refl, str_eqb_refl, N.eqb_refl. Qed.
+Fixpoint dnode_peqb_refl (d : dnode) : dnode_peqb d d = true.
+Proof.
+  destruct d as [s | i body s c].
+  - cbn. apply nstmt_eqb_refl.
+  - cbn [dnode_peqb]. rewrite Z.eqb_refl, nstmt_eqb_refl, N.eqb_refl. cbn [andb].
+    revert body. fix IH 1. intros [|p r]; [reflexivity|].
+    cbn [take1]. rewrite (dnode_peqb_refl p). apply IH.
+Qed.
+Lemma dot_peqb_refl d : dot_peqb d d = true.
+Proof.
+  unfold dot_peqb. rewrite N.eqb_refl, dnode_peqb_refl. cbn [andb]. apply perm_eqb_refl, estmt_eqb_refl.
+Qed.
+(* the model: whatever renderings of one HUGR are made, under whatever options and in whatever order (the model's
+   render is a function of the options and of what it reads from the HUGR - it has no other input) *)
+Lemma render_determined t ls cs : Determined (map (fun c => (c, render c t ls)) cs).
+Proof.
+  induction cs as [|c r IH]; cbn [map]; constructor; [|exact IH].
+  intros c' d' Hin ->. apply in_map_iff in Hin. destruct Hin as [c2 [E _]]. inversion E; subst. apply dot_peqb_refl.
+Qed.
+(* non-vacuity: two renderings of the example under the same options that differ in a name are rejected, under
+   different options they are accepted *)
+Example ex_determined :
+  determined_b [(ex_cfg, render ex_cfg ex_tree (hv_links ex_view));
+                (ex_cfg, render {| c_pal := c_pal ex_cfg; c_qualify := true |} ex_tree (hv_links ex_view))] = false /\
+  determined_b [(ex_cfg, render ex_cfg ex_tree (hv_links ex_view));
+                ({| c_pal := c_pal ex_cfg; c_qualify := true |},
+                 render {| c_pal := c_pal ex_cfg; c_qualify := true |} ex_tree (hv_links ex_view))] = true.
+Proof. split; reflexivity. Qed.
+
+(* ---- seeded round 5: renderers do not interfere ---- *)
+Lemma upd_length {A} (f : A -> A) l : forall n, length (upd n f l) = length l.
+Proof. induction l as [|x r IH]; intros [|n]; cbn; auto. Qed.
+Lemma nth_error_seq0 n : forall r, nth_error (seq 0 n) r = if r <? n then Some r else None.
+Proof.
+  intros r. destruct (r <? n) eqn:E.
+  - apply Nat.ltb_lt in E. rewrite nth_error_nth' with (d := 0) by now rewrite seq_length.
+    now rewrite seq_nth.
+  - apply Nat.ltb_ge in E. apply nth_error_None. now rewrite seq_length.
+Qed.
+Lemma upd_out {A} (f : A -> A) l : forall n, length l <= n -> upd n f l = l.
+Proof.
+  induction l as [|x r IH]; intros [|n] H; cbn in *; auto; try lia. f_equal. apply IH. lia.
+Qed.
+Lemma seq0_snoc n : seq 0 n ++ [n] = seq 0 (S n).
+Proof. now rewrite seq_S. Qed.
+Definition own_state (own : list config) : hstate := {| hs_heap := own; hs_rend := seq 0 (length own) |}.
+Lemma hstep_own dflt t ls own o :
+  hstep (fresh_default dflt) t ls (own_state own) o = (own_state (own_step dflt own o), own_draw t ls own o).
+Proof.
+  unfold own_state. destruct o as [[c|]|r b|r p|r]; cbn [hstep own_step own_draw fresh_default hs_heap hs_rend].
+  - now rewrite app_length, Nat.add_1_r, seq0_snoc.
+  - now rewrite app_length, Nat.add_1_r, seq0_snoc.
+  - rewrite nth_error_seq0. destruct (r <? length own) eqn:E.
+    + now rewrite upd_length.
+    + apply Nat.ltb_ge in E. now rewrite upd_out.
+  - rewrite nth_error_seq0. destruct (r <? length own) eqn:E.
+    + now rewrite upd_length.
+    + apply Nat.ltb_ge in E. now rewrite upd_out.
+  - rewrite nth_error_seq0. destruct (r <? length own) eqn:E.
+    + destruct (nth_error own r); reflexivity.
+    + apply Nat.ltb_ge in E. apply nth_error_None in E. now rewrite E.
+Qed.
+Lemma hrun_own dflt t ls h : forall own,
+  hrun (fresh_default dflt) t ls (own_state own) h = own_draws dflt t ls own h.
+Proof.
+  induction h as [|o r IH]; intros own; cbn [hrun own_draws]; [reflexivity|].
+  rewrite hstep_own. now rewrite IH.
+Qed.
+Lemma renderers_do_not_interfere dflt t ls h :
+  hrun (fresh_default dflt) t ls {| hs_heap := []; hs_rend := [] |} h = own_draws dflt t ls [] h.
+Proof. exact (hrun_own dflt t ls h []). Qed.
+(* the variant of seeded change C20-i: ONE module-level default configuration object (address 0 of the initial heap)
+   given to every renderer made without a configuration - the faithful model of THAT code does not meet the
+   specification: customise one default-made renderer, draw with another *)
+Definition module_default (s : hstate) : hstate * nat := (s, 0).
+Lemma shared_default_interferes :
+  exists h, hrun module_default ex_tree (hv_links ex_view) {| hs_heap := [ex_cfg]; hs_rend := [] |} h
+            <> own_draws ex_cfg ex_tree (hv_links ex_view) [] h.
+Proof. exists [HNew None; HSetQual 0 true; HNew None; HDraw 1]. vm_compute. discriminate. Qed.
+(* non-vacuity: a history with customised renderers produces drawings, and they differ *)
+Example ex_history :
+  length (own_draws ex_cfg ex_tree (hv_links ex_view) []
+            [HNew None; HSetQual 0 true; HDraw 0; HNew None; HDraw 1; HNew (Some ex_cfg); HSetPal 2 (c_pal ex_cfg); HDraw 2]) = 3.
+Proof. reflexivity. Qed.
